@@ -6,6 +6,12 @@ VARIABLES l, bad
 Init == l = 1 /\ bad = <<>>
 Checks(e) ==
   CASE e.t = "weights"    -> [noError |-> e.kind = "ok", weights |-> e.kind = "ok" => WeightsOK(e.L, ParseV(e.w))]
+    \* one replicate line of `goalign build weightboot`: L fields printed with six decimals (a weight below 5e-7 prints as
+    \* 0.000000: non-negative here), summing to L up to the rounding of the fields
+    [] e.t = "weightscli" -> [noError |-> e.kind = "ok",
+                              lineWeights |-> e.kind = "ok" => LET w == ParseV(e.w) IN
+                                 /\ Len(w) = e.L /\ \A i \in 1..Len(w) : FIsFinite(w[i]) /\ FLe(Zero, w[i])
+                                 /\ FLe(FAbs(FSub(FSum(w), FInt(e.L))), FMul(FInt(e.L), FParse("1e-6")))]
     [] e.t = "dirichlet"  -> LET a == ParseV(e.alphas) IN
                              [errClass |-> (e.kind = "err") = DirichletErr(a),
                               sample   |-> e.kind = "ok" => DirichletOK(FParse(e.total), Len(a), ParseV(e.s))]
